@@ -32,7 +32,7 @@ def run_variant(info, name, case, repeat=1):
         json.dump(res, open(f'{d}/model.json', 'w'))
         open(f'{d}/done', 'w').write('1')
     v = {'dir': d, 'case': case}
-    for n in ('plugin', 'static', 'model'):
+    for n in ('plugin', 'static', 'model', 'oracle'):
         p = f'{d}/{n}.json'
         v[n] = json.load(open(p)) if os.path.exists(p) else None
     tf = f'{d}/x_terraform.go.txt'
@@ -194,11 +194,40 @@ def eval_schema(prop):
                     d = first_diff(strip_attr(rt[t], rkeys), strip_attr(mod, rkeys))
                     if d:
                         out['tie_breaks'].append({'batch': b['dir'], 'type': t, 'stage': 'B (run-time walk)', 'diff': d})
+                # independent oracle (harness/oracle: documented rules on the abstract descriptor, no shared code)
+                orc = (b.get('oracle') or {}).get(t)
+                if orc is not None and prop in ('C02', 'C10'):
+                    okeys = [k for k in keys if k not in ('ty', 'custom')]
+                    d = oracle_diff(tree, orc, okeys)
+                    if d:
+                        out['violations'].append({'kind': f'schema deviates from the documented rules ({prop})', 'batch': b['dir'], 'type': t, 'diff': d})
                 if len(out['samples']) < 2:
                     out['samples'].append({'type': t, 'schema': json.dumps(a)[:800]})
         out['coverage'] = {'attributes_compared': nattrs, 'traces_validated_against_impl': out['evaluations'] - len(out['tie_breaks'])}
         return out
     return ev
+
+
+def oracle_diff(tree, orc, keys, path=''):
+    """compare the generated schema literal with the oracle's expectation; returns the first difference"""
+    if set(tree) != set(orc):
+        return f'{path}: attribute names {sorted(set(tree) - set(orc))} unexpected, {sorted(set(orc) - set(tree))} missing'
+    for n in sorted(tree):
+        a, o = tree[n], orc[n]
+        for k in keys:
+            if k == 'desc' and o.get('kind') == 'injected':
+                continue
+            if k == 'nest' and o.get('kind') == 'custom':
+                continue
+            if a.get(k) != o.get(k):
+                return f'{path}/{n}.{k}: generated {json.dumps(a.get(k))} expected {json.dumps(o.get(k))}'
+        if o.get('attrs') is not None or a.get('attrs') is not None:
+            if (o.get('attrs') is None) != (a.get('attrs') is None):
+                return f'{path}/{n}: nested attributes generated={a.get("attrs") is not None} expected={o.get("attrs") is not None}'
+            d = oracle_diff(a['attrs'], o['attrs'], keys, path + '/' + n)
+            if d:
+                return d
+    return None
 
 
 def blank_custom(stripped, tree):
